@@ -40,7 +40,15 @@ func c16Scenario(c *Ctx, idx int, r *Rng) (mline, mimpl, mcase string) {
 		}
 	}
 	w.git("remote", "add", "origin", remote)
-	verify := Pick(r, []string{"true", "true", "unset", "false"})
+	// Git's spellings of a boolean: true/yes/on/1 and false/no/off/0, in any case
+	verify := Pick(r, []string{"true", "true", "unset", "false", "yes", "on", "True", "no"})
+	gitTrue := func(v string) bool {
+		switch strings.ToLower(v) {
+		case "true", "yes", "on", "1":
+			return true
+		}
+		return false
+	}
 	if verify != "unset" {
 		w.git("config", "lfs."+srv.srv.URL+".locksverify", verify)
 	}
@@ -636,7 +644,7 @@ func c16Scenario(c *Ctx, idx int, r *Rng) (mline, mimpl, mcase string) {
 				}
 				sort.Strings(tl)
 				sort.Strings(tt)
-				ans, err := c.Or.Ask([]string{fmt.Sprintf("C16 push %s %s %s", b01(verify == "true"), joinOrDash(tl), joinOrDash(tt))})
+				ans, err := c.Or.Ask([]string{fmt.Sprintf("C16 push %s %s %s", b01(gitTrue(verify)), joinOrDash(tl), joinOrDash(tt))})
 				got := "accepted"
 				if code != 0 {
 					got = "rejected"
@@ -650,7 +658,7 @@ func c16Scenario(c *Ctx, idx int, r *Rng) (mline, mimpl, mcase string) {
 				if err == nil && ans[0] != got && !revOnly {
 					c.R.Add(Finding{Kind: "diff", What: "push gate: model and implementation disagree", Case: clip(enc(), 2500), Impl: got, Model: ans[0], Broken: "corr.C16.push"})
 				}
-				if verify == "true" && len(theirsTouched) > 0 && code == 0 {
+				if gitTrue(verify) && len(theirsTouched) > 0 && code == 0 {
 					sig := "D27"
 					for _, p := range theirsTouched {
 						if !reverted[p] {
